@@ -131,9 +131,7 @@ func (s *Schema) Rels() []Rel {
 	}
 
 	sort.Slice(rels, func(i, j int) bool {
-		name1 := rels[i].FromType + rels[i].FromName
-		name2 := rels[j].FromType + rels[j].FromName
-		return name1 < name2
+		return relLess(rels[i], rels[j])
 	})
 
 	return rels
@@ -250,4 +248,35 @@ func (s *Schema) buildRels() map[Rel]struct{} {
 	}
 
 	return rels
+}
+
+// relLess defines the order in which Schema.Rels lists relationships: by type
+// name, then by relationship name. The remaining fields are compared too so
+// that the order is total and the result never depends on map iteration.
+func relLess(a, b Rel) bool {
+	if a.FromType != b.FromType {
+		return a.FromType < b.FromType
+	}
+
+	if a.FromName != b.FromName {
+		return a.FromName < b.FromName
+	}
+
+	if a.ToType != b.ToType {
+		return a.ToType < b.ToType
+	}
+
+	if a.ToName != b.ToName {
+		return a.ToName < b.ToName
+	}
+
+	if a.ToOne != b.ToOne {
+		return !a.ToOne
+	}
+
+	if a.FromOne != b.FromOne {
+		return !a.FromOne
+	}
+
+	return false
 }
